@@ -298,7 +298,7 @@ def _worker(args):
     signal.setitimer(signal.ITIMER_REAL, limit)
     t0 = time.time()
     try:
-        mod.run_shard(ctx, shard)
+        run_one(mod, ctx, shard)
     except BaseException:
         signal.setitimer(signal.ITIMER_REAL, 0)
         return {'error': 'shard %d %r\n%s' % (idx, shard, traceback.format_exc())}
@@ -310,12 +310,33 @@ def _worker(args):
     return r
 
 
+PAIRHIST_K = 8
+
+
+def all_shards(mod, prop, tier, seed):
+    """the module's own shards, plus the call-sequence explorer from a pristine process state (mc/pairhist.py) when mc/histmenu.py has a menu
+    for the property (both tiers: the menu is small and every ordered pair of its steps is explored)"""
+    from mc import histmenu
+    out = list(mod.shards(tier, seed))
+    if hasattr(histmenu, prop):
+        out += [('pairhist', k, PAIRHIST_K) for k in range(PAIRHIST_K)]
+    return out
+
+
+def run_one(mod, ctx, shard):
+    if shard[0] == 'pairhist':
+        from mc import pairhist
+        pairhist.explore(ctx, mod.PROP, 'mc.histmenu:' + mod.PROP, shard[1], shard[2])
+    else:
+        mod.run_shard(ctx, shard)
+
+
 def run_property(prop, tier, seed, only=None, jobs=None):
     import multiprocessing as mp
     import_repo()
     modname = 'mc.props.' + prop.lower()
     mod = importlib.import_module(modname)
-    shards = mod.shards(tier, seed)
+    shards = all_shards(mod, prop, tier, seed)
     limit = getattr(mod, 'SHARD_LIMIT', {}).get(tier, 900 if tier == 'quick' else 7200)
     jobs = jobs or int(os.environ.get('VERIF_JOBS', '16'))
     work = [(modname, tier, seed, only, i, s, limit) for i, s in enumerate(shards)]
@@ -360,12 +381,12 @@ def history_replay(prop, tier, seed, rec):
     import_repo()
     modname = 'mc.props.' + prop.lower()
     mod = importlib.import_module(modname)
-    shards = mod.shards(tier, seed)
+    shards = all_shards(mod, prop, tier, seed)
     merged = {'evals': 0, 'viol': {}}
     seq = list(rec.get('worker_history') or []) + [rec['shard']]
     for n, idx in enumerate(seq):
         ctx = Ctx(mod.PROP, tier, seed, None, target=rec['case'], shard=idx, history=seq[:n])
-        mod.run_shard(ctx, shards[idx])
+        run_one(mod, ctx, shards[idx])
         merged['evals'] += ctx.evals
         for g, d in ctx.viol.items():
             m = merged['viol'].setdefault(g, {'n': 0, 'first': []})
@@ -507,11 +528,13 @@ def main(argv):
     validate_evidence(path)
     rc = 0
     confirm = 0
+    attempts = 0
+    unconfirmed = []
     for g, d in sorted(merged['viol'].items()):
         v = d['first'][0]
         rp = write_replay(prop, v, tier, seed)
-        if not a.no_confirm and confirm < 2:
-            confirm += 1
+        if not a.no_confirm and confirm < 2 and attempts < 8:
+            attempts += 1
             outs = []
             for _ in range(2):
                 r = subprocess.run([os.path.join(VERIF, 'check'), prop, '--replay', rp],
@@ -534,11 +557,19 @@ def main(argv):
                     v = dict(v, detail='[depends on the calls made before it in the process: passes alone, fails after the recorded history] ' + v['detail'])
                     outs = houts
             if outs[0] != outs[1] or outs[0][0] != 1:
-                sys.stderr.write('HARNESS-ERROR replay of %s not reproducible: %r\n' % (rp, outs))
-                return 2
+                # seen once in the enumeration, not reproducible from its replay file (neither alone nor after the recorded history): not reported
+                # as a violation.  If NO group of this run can be confirmed the run ends as a harness error (exit 2), never silently.
+                sys.stderr.write('UNCONFIRMED replay of %s not reproducible: %r\n' % (rp, outs))
+                unconfirmed.append((g, rp))
+                continue
+            confirm += 1
         print('VIOLATION property=%s replay=%s site=%s kind=%s cases=%d first=%s :: %s' %
               (prop, rp, v['site'], v['kind'], d['n'], v['case'], v['detail'][:300]))
         rc = 1
+    if unconfirmed and (rc == 0 or confirm == 0):
+        sys.stderr.write('HARNESS-ERROR %d violation group(s) could not be reproduced from their replay files and none was confirmed: %r\n' %
+                         (len(unconfirmed), [u[1] for u in unconfirmed]))
+        return 2
     print('%s tier=%s seed=%d evaluations=%d distinct_nontrivial=%d cells=%d violations=%d known=%d wall=%.1fs' %
           (prop, tier, seed, merged['evals'], len(merged['keys']), len(merged['cells']), nviol,
            sum(merged['known_hits'].values()), wall) +
